@@ -91,6 +91,9 @@ MUST_FIRE = [
     ("icw-restore-weights-not-from-base", ["C19"], ["R19.5"], P + "pool/utils.py",
      "                self.sample_weight_ = self._copy_sw(self.base_sample_weight_)\n\n            if self.enforce_unique_samples:",
      "                self.sample_weight_ = self._copy_sw(\n                    self._get_sw(self.sample_weight, idx=self.idx_)\n                )\n\n            if self.enforce_unique_samples:"),
+    ("coreset-where-erases-nan", ["C01", "C02"], ["R1.4c", "R2.3"], P + "pool/_core_set.py",
+     "            latest_distance_tmp = latest_distance.copy()\n            latest_distance_tmp[latest_distance_tmp == 0] = np.inf\n",
+     "            latest_distance_tmp = np.where(latest_distance > 0, latest_distance, np.inf)\n"),
     # ---- C03
     ("split-set-state-deleted", ["C03"], ["R3"], BZ,
      "        self.random_state_.set_state(random_state_state)\n", "        pass\n"),
@@ -253,6 +256,9 @@ MUST_FIRE = [
 
 # behaviour-preserving edits that must stay silent: (id, properties, file, old, new)
 SILENT_EDITS = [
+    ("coreset-where-keeps-nan", ["C01", "C02"], P + "pool/_core_set.py",
+     "            latest_distance_tmp = latest_distance.copy()\n            latest_distance_tmp[latest_distance_tmp == 0] = np.inf\n",
+     "            latest_distance_tmp = np.where(latest_distance == 0, np.inf, latest_distance)\n", ""),
     ("extract-mask-helper", ["C01", "C02", "C18"], SEL,
      "            utilities[tuple(best_indices[i])] = np.nan\n",
      "            _mask_winner(utilities, best_indices[i])\n",
